@@ -185,10 +185,10 @@ static bool grid(const Args &a, Evidence &ev, size_t mtu, const std::vector<size
         const Bytes &D = h.friendly;
         std::vector<const Bytes *> cands = {&D};
         Case cur; h.to_case(cur);     // kept current for the crash dump (a sanitizer abort bypasses the normal failure path)
-        { Op d; d.kind = K_DISCOVER; d.a = {0, 0, 1, 1, 0, 0, -1}; Op q; q.kind = K_QLT; q.a = {0, 7, 0x11, 0, 0}; cur.ops = {d, q}; }
-        CurrentScope scope(cur);
+        { Op d; d.kind = K_DISCOVER; d.a = {0, 0, 1, 1, 0, 0, -1}; cur.ops = {d}; }
+        CurrentScope scope(cur, false);
         for (uint32_t off : offs) {
-            cur.ops[1].a[3] = off;
+            { Op q; q.kind = K_QLT; q.a = {0, 7, 0x11, (int64_t)off, 0}; cur.ops.push_back(q); }   // the whole run of requests on this instance so far: a crash may need the earlier ones
             Bytes f = mk_qlt(own, m, own, m, 7, 0x11, (uint16_t)off, 0);
             std::vector<Ev> tx = sends_only(w.deliver(ifi, f));
             std::string e = check_resp(tx, cands, mtu, own, m, 7, (uint16_t)off, nullptr);
